@@ -60,7 +60,7 @@ type boundedResult struct {
 	Err    string
 }
 
-func runBounded(b *BoundedCfg) boundedResult {
+func runBounded(b *BoundedCfg, tier string) boundedResult {
 	res := boundedResult{OK: map[string]int{}}
 	ov, err := os.CreateTemp("", "govc-ov-*.json")
 	if err != nil {
@@ -73,6 +73,7 @@ func runBounded(b *BoundedCfg) boundedResult {
 	ov.Close()
 	cmd := exec.Command("go", "test", "-overlay", ov.Name(), "-vet=off", "-count=1", "-timeout", "900s", "-v", "-run", "^"+b.Run+"$", "./"+b.Pkg)
 	cmd.Dir = repoDir
+	cmd.Env = append(os.Environ(), "VERIF_TIER="+tier)
 	out, err := cmd.CombinedOutput()
 	res.Output = string(out)
 	for _, ln := range strings.Split(res.Output, "\n") {
@@ -545,7 +546,7 @@ func cmdCheck(args []string) int {
 	}
 	var bres *boundedResult
 	if cfg.Bounded != nil {
-		r := runBounded(cfg.Bounded)
+		r := runBounded(cfg.Bounded, tier)
 		bres = &r
 		for i, f := range r.Fails {
 			violations++
